@@ -75,7 +75,7 @@ def main(chk, replay=None):
         m = draw(st.floats(0.85, 1.25).map(lambda v: round(v, 4)))
         b = draw(st.floats(0.0, 7.0).map(lambda v: round(v, 4)))
         extra = draw(st.lists(st.tuples(st.integers(2, 200), st.integers(2, 200), st.integers(2, 200)), min_size=0, max_size=6))
-        return dict(chans=chans, op=op, cols=sorted(cols), m=m, b=b, extra=extra)
+        return dict(chans=chans, op=op, cols=cols, m=m, b=b, extra=extra)      # cols in the drawn (any) order
 
     @settings(max_examples=400 if chk.quick else 20000, deadline=None, database=None, derandomize=True,
               suppress_health_check=list(HealthCheck))
@@ -110,9 +110,10 @@ def main(chk, replay=None):
                         fns[c] = (lambda a0, a1, r: (lambda v: a1 * 10.0 ** (a0 * np.asarray(v, dtype=np.float64) / r)))(at[0], at[1], x.resolution(c))
             else:
                 x = FlowCal.transform.to_rfi(x0, [0, 1, 2])       # calibrate RFI data, as the workflow does
-                sc = std_curve(case['m'], case['b'])
-                y = FlowCal.transform.to_mef(x, cols0, [sc] * len(cols0), cols0)
-                fns = {c: sc for c in cols0}
+                # one curve per channel (all different), calibration listed in file order, request in any order
+                scs = [std_curve(round(case['m'] + 0.04 * k, 4), round(case['b'] + 0.35 * k, 4)) for k in range(3)]
+                y = FlowCal.transform.to_mef(x, cols0, scs, [0, 1, 2])
+                fns = {c: scs[c] for c in cols0}
             m1 = FlowCal.gate.high_low(x, full_output=True).mask
             m2 = FlowCal.gate.high_low(y, full_output=True).mask
         xv = np.asarray(x.view(np.ndarray))
